@@ -1,14 +1,18 @@
 import IbModel.Util.Wire
 import IbModel.Model.CloudGlob
+import IbModel.Generated.Tables
 /-!
 Driver handlers for C19. Strings travel as `x<hex of UTF-8>` (so the empty string is `x`), records as
 opaque tokens `r<hex>`.
 
 * `GLOB2RE x<pat>`                       ↦ `x<regex source>`
 * `GLOBPREFIX x<pat>`                    ↦ `NONE` | `SOME x<prefix>`
-* `GLOBMATCH x<pat> x<key>…`             ↦ `OK x<key>…` | `ERR <class>`        (`expand_cloud_glob`)
+* `GLOBMATCH x<pat> x<key>…`             ↦ `<L> OK x<key>…` | `<L> ERR <class>` | `ERR InvalidInput` (`expand_cloud_glob`);
+                                           `<L>` = `PNONE` | `Px<prefix>`: what was passed to `list_objects`
 * `GLOBREQ x<pat> x<key>…`               ↦ same, `expand_cloud_glob_required`
-* `GLOBALL x<pat> x<alphabet> <n>`       ↦ `OK <count> x<key>…` over ALL keys of length ≤ n over the alphabet
+* `GLOBALL x<pat> x<alphabet> <n>`       ↦ `<L> OK <count> x<key>…` over ALL keys of length ≤ n over the alphabet
+* `REFMATCH x<pat> x<key>…`              ↦ `M:<one bit per key>`  — the REFERENCE `globMatch`, no regex involved
+* `REFALL x<pat> x<alphabet> <n>`        ↦ `N <count> x<key>…`    — the reference over the same keyUniverse, sorted
 * `CLOUDJSONL x<key> r…`                 ↦ `W:<codec> R:OK r…` | `W:<codec> R:ERR`
 * `GLOBREAD x<pat> x<key>=r,r,… …`       ↦ `OK r…` | `ERR <class>`             (`read_cloud_jsonl_glob`)
 -/
@@ -40,52 +44,34 @@ def keysAnswer : Except Err (List Str) → String
 def codecName : Codec → String
   | .plain => "plain" | .gzip => "gzip" | .zstd => "zstd" | .bzip2 => "bzip2" | .xz => "xz"
 
-/-- toy serialiser/codec used to EXECUTE the model: a record is its own token; a compressed blob is the
-    text behind a one-word signature that is not a scalar value -/
-def codecTag : Codec → Nat
-  | .plain => 0 | .gzip => 0x110001 | .zstd => 0x110002 | .bzip2 => 0x110003 | .xz => 0x110004
+/-- a record token `r<hex>` of the wire ↦ the model's record type (the serialiser/codec instance the
+    model is executed with is `IB.CloudGlob.wireExt`, proved `Lawful` in `Props/C19.lean`) -/
+def recTok? (t : String) : Option RecTok :=
+  match t.toList with
+  | 'r' :: h => if hh : h.all isHexChar = true then some ⟨h, hh⟩ else none
+  | _ => none
 
-def isHexChar (c : Char) : Bool := ('0' ≤ c ∧ c ≤ '9') || ('a' ≤ c ∧ c ≤ 'f')
+def recStr (r : RecTok) : String := String.ofList ('r' :: r.hex)
 
-def toyText (b : List Nat) : Option Str :=
-  if b.all (· < 0x110000) then some (b.map Char.ofNat) else none
-
-def toy : Ext String (List Nat) where
-  ser r := r.toList
-  de l := match l with
-    | 'r' :: h => if h.all isHexChar then some (String.ofList l) else none
-    | _ => none
-  enc c t := match c with
-    | .plain => t.map Char.toNat
-    | c => codecTag c :: t.map Char.toNat
-  dec c b := match c with
-    | .plain => toyText b
-    | c => match b with
-      | tag :: rest => if tag = codecTag c then toyText rest else none
-      | [] => none
-  magic b := match b with
-    | tag :: _ =>
-      if tag = 0x110001 then some .gzip else if tag = 0x110002 then some .zstd
-      else if tag = 0x110003 then some .bzip2 else if tag = 0x110004 then some .xz else none
-    | [] => none
-
-def recsAnswer : Except Err (List String) → String
+def recsAnswer : Except Err (List RecTok) → String
   | .error e => "ERR " ++ errName e
-  | .ok rs => String.intercalate " " ("OK" :: rs)
+  | .ok rs => String.intercalate " " ("OK" :: rs.map recStr)
 
 /-- all strings of length ≤ n over the alphabet -/
 def allKeys (alpha : Str) : Nat → List Str
   | 0 => [[]]
   | n + 1 => [] :: (allKeys alpha n).flatMap (fun k => alpha.map (fun c => c :: k))
 
-def isRecTok (t : String) : Bool :=
-  match t.toList with
-  | 'r' :: h => h.all isHexChar
-  | _ => false
+/-- the store of `GLOBALL` / `REFALL`: every key once (a repeated alphabet letter would repeat keys) -/
+def keyUniverse (alpha : Str) (n : Nat) : List Str :=
+  if alpha.Nodup then allKeys alpha n else (allKeys alpha n).eraseDups
 
 def handleGlob2Re : List String → String
   | [p] => match str? p with
-    | some p => strTok (globToRegex p)
+    -- the escape set and head probed from the running code (`Props/C19.lean::glob_regex_correct_generated`,
+    -- `expand_exact_generated` are about exactly this function); a probe on single characters only — this
+    -- request checks that it generalises to whole patterns
+    | some p => strTok (globToRegexWith IB.Generated.escapeSet IB.Generated.regexHead p)
     | none => "BAD-OP"
   | _ => "BAD-OP"
 
@@ -97,12 +83,31 @@ def handlePrefix : List String → String
     | none => "BAD-OP"
   | _ => "BAD-OP"
 
+/-- the prefix `expand_cloud_glob` hands to `list_objects` (recorded by the harness's store wrapper) -/
+def prefixTok : Option Str → String
+  | none => "PNONE"
+  | some q => "P" ++ strTok q
+
+/-- `<prefix passed to list_objects> <result>`; when `Regex::new` fails nothing is listed -/
+def withListing (p : Str) (answer : String) : String :=
+  match listedPrefix globToRegex p with
+  | none => answer
+  | some q => prefixTok q ++ " " ++ answer
+
 def handleMatch (required : Bool) : List String → String
   | p :: ks => match str? p, ks.mapM str? with
     | some p, some ks =>
       -- the store holds each key once (puts of the same key overwrite)
       let s : Store Unit := ks.foldl (fun s k => put s k ()) []
-      keysAnswer (if required then expandGlobRequired (keysOf s) p else expandGlob (keysOf s) p)
+      withListing p (keysAnswer (if required then expandGlobRequired (keysOf s) p else expandGlob (keysOf s) p))
+    | _, _ => "BAD-OP"
+  | _ => "BAD-OP"
+
+/-- the REFERENCE matcher of the model (`globMatch`, the documented syntax), one bit per key: compared with
+    the harness's own reference `ref_match`, so the two statements of the syntax are diffed directly -/
+def handleRefMatch : List String → String
+  | p :: ks => match str? p, ks.mapM str? with
+    | some p, some ks => "M:" ++ String.ofList (ks.map (fun k => if globMatch p k then '1' else '0'))
     | _, _ => "BAD-OP"
   | _ => "BAD-OP"
 
@@ -110,44 +115,55 @@ def handleAll : List String → String
   | [p, a, n] => match str? p, str? a, parseNat? n with
     | some p, some a, some n =>
       if n > 6 then "BAD-OP" else
-      match expandGlob ((allKeys a n).eraseDups) p with
+      withListing p (match expandGlob (keyUniverse a n) p with
       | .error e => "ERR " ++ errName e
-      | .ok ks => String.intercalate " " ("OK" :: toString ks.length :: ks.map strTok)
+      | .ok ks => String.intercalate " " ("OK" :: toString ks.length :: ks.map strTok))
+    | _, _, _ => "BAD-OP"
+  | _ => "BAD-OP"
+
+/-- the reference matcher over the same keyUniverse, sorted: `N <count> x<key>…` -/
+def handleRefAll : List String → String
+  | [p, a, n] => match str? p, str? a, parseNat? n with
+    | some p, some a, some n =>
+      if n > 6 then "BAD-OP" else
+      let ks := sortKeys ((keyUniverse a n).filter (fun k => globMatch p k))
+      String.intercalate " " ("N" :: toString ks.length :: ks.map strTok)
     | _, _, _ => "BAD-OP"
   | _ => "BAD-OP"
 
 def handleJsonl : List String → String
   | k :: rs => match str? k with
     | some k =>
-      if rs.all isRecTok then
-        let s := writeObj toy [] k rs
-        let r := match readObj toy s k with
-          | .ok out => String.intercalate " " ("R:OK" :: out)
+      match rs.mapM recTok? with
+      | some rs =>
+        let s := writeObj wireExt [] k rs
+        let r := match readObj wireExt s k with
+          | .ok out => String.intercalate " " ("R:OK" :: out.map recStr)
           | .error _ => "R:ERR"
         "W:" ++ codecName (writerCodec k) ++ " " ++ r
-      else "BAD-OP"
+      | none => "BAD-OP"
     | none => "BAD-OP"
   | _ => "BAD-OP"
 
-def objTok? (t : String) : Option (Str × List String) :=
+def objTok? (t : String) : Option (Str × List RecTok) :=
   match t.splitOn "=" with
   | [k, rs] => do
     let k ← str? k
-    let rs := if rs = "" then [] else rs.splitOn ","
-    if rs.all isRecTok then some (k, rs) else none
+    let rs ← (if rs = "" then [] else rs.splitOn ",").mapM recTok?
+    some (k, rs)
   | _ => none
 
 def handleRead : List String → String
   | p :: objs => match str? p, objs.mapM objTok? with
     | some p, some objs =>
-      let s := writeAll toy [] objs
-      recsAnswer (readGlob toy s p)
+      let s := writeAll wireExt [] objs
+      recsAnswer (readGlob wireExt s p)
     | _, _ => "BAD-OP"
   | _ => "BAD-OP"
 
 def handlers : List (String × (List String → String)) :=
   [("GLOB2RE", handleGlob2Re), ("GLOBPREFIX", handlePrefix), ("GLOBMATCH", handleMatch false),
-   ("GLOBREQ", handleMatch true), ("GLOBALL", handleAll), ("CLOUDJSONL", handleJsonl),
-   ("GLOBREAD", handleRead)]
+   ("GLOBREQ", handleMatch true), ("GLOBALL", handleAll), ("REFMATCH", handleRefMatch),
+   ("REFALL", handleRefAll), ("CLOUDJSONL", handleJsonl), ("GLOBREAD", handleRead)]
 
 end IB.D19
